@@ -119,6 +119,9 @@ def _mk_walk(key, wi, two):
             n += 1
             check(n <= 6 * (n0 + 8 * (1 + int(two))), 'walk.does_not_terminate', (key, wkw, act1, act2))
             check(g.a is not None and g.root is root, 'walk.yielded_dead_or_foreign_node', (key, wkw, act1, act2, n))
+            with pc.untraced():
+                ga = g.a
+                check(any(m_ is ga for m_ in ast.walk(root.a)), 'walk.yielded_node_not_reachable_from_root', (key, wkw, act1, act2, type(ga).__name__))
             if not leaving:
                 check(id(g) not in seen, 'walk.yielded_node_twice_on_entry', (key, wkw, act1, act2, type(g.a).__name__))
                 seen.add(id(g))
@@ -174,6 +177,9 @@ def p2_search_mutate(k: int, act: int):
     for m in root.search(MName(id='a')):
         g = m.matched
         check(g.a is not None and g.root is root, 'search.yielded_dead_node', (n,))
+        with pc.untraced():
+            ga = g.a
+            check(any(m_ is ga for m_ in ast.walk(root.a)), 'search.yielded_node_not_reachable_from_root', (n,))
         check(id(g) not in seen, 'search.yielded_node_twice')
         seen.add(id(g))
         keep.append(g)
